@@ -173,6 +173,18 @@ CLAIMED["C20"] = dict(
         "with the first name). " + TRUST,
    design="DESIGN.md §4 C20")
 
+CLAIMED["C31"] = dict(
+   text="Proof-level kernel: TieredChunkCache.doSetChunk stores in the memory layer exactly the chunks within the first size limit and in exactly one disk tier chosen by the "
+        "chunk length, under the needle key parsed from the file id; doGetChunk / doGetChunkSlice answer only with data at least as long as requested that a layer returned "
+        "for this file id (memory) or its needle key (disk), pass offset and length through unchanged, and probe every tier in which a chunk of the requested size may have "
+        "been stored (so every stored chunk is found again in the tier it went to); ChunkCacheVolume.WriteNeedle over the ghost file model: the chunk is written at the "
+        "logical end, the file is padded to the next 8-byte boundary (both writes, at the right offsets), the logical size stays aligned, the index entry gets key, offset "
+        "and length; getNeedleSlice reads once and never returns more than requested.",
+   note="The layers (memory cache, per-tier volume rotation, leveldb index) are abstract: rotation/eviction and restart (seeded changes C31-m1/m2 live in Reset/ "
+        "LoadOrCreate and in the padding write respectively) are only covered where they touch WriteNeedle. One open known finding: the disk tiers are keyed by the needle "
+        "key alone, so file ids sharing a key alias (the lemma that the key identifies the file is refuted and listed). " + TRUST,
+   design="DESIGN.md §4 C31")
+
 NA = {
  "C03":"crash-point property over byte-level truncation of two persistent files; no per-function contract within reach decides it (DESIGN §4 C03)",
  "C10":"needs inductive tree predicates and cardinality reasoning over interface-typed nodes in pointer maps with randomised picking (DESIGN §4 C10)",
